@@ -18,8 +18,8 @@ type MemoMut struct {
 	Malformed bool   `json:"malformed"` // certainly not a well-formed orbiter payload
 	// Unroutable: the parser may accept it, but the transfer cannot be executed (the forwarding
 	// or the fee names no destination): end to end it must be refused
-	Unroutable bool `json:"unroutable,omitempty"`
-	Denom     string `json:"denom"`
+	Unroutable bool   `json:"unroutable,omitempty"`
+	Denom      string `json:"denom"`
 }
 
 // MemoTemplate is a valid payload used as mutation seed.
